@@ -4,6 +4,7 @@ CONSTANTS
   C = 2
   CountFirst = FALSE
   EarlyAccept = FALSE
+  DialAnyOrder = TRUE
 CONSTRAINT HighWater
 INVARIANT Safety
 POSTCONDITION TraceAccepted
